@@ -23,8 +23,11 @@ into `OPM.Gen.ParseTables` by harness/translators/parse_tables.py.
 `has_argument = ":" in line.strip().split("#")[0]` is modelled without the `strip()`: white space is neither
 ':' nor '#', so stripping cannot change the answer.
 
-Abstractions: source ranges (`instruction_range`, `arguments_range`, …) and `tag_value_numeric`
-(a float) are not modelled; lines are assumed to contain no '\n' (true for every line produced by
+Typed results: `node.threshold` and `tag_value_numeric` are Python floats; the model gives the exact decimal
+(`Dec10`) the text denotes, and the harness compares it with the float whenever the text has at most 15
+significant digits (then decimal → double → shortest repr is the identity).
+
+Abstractions: source ranges (`instruction_range`, `arguments_range`, …) are not modelled; lines are assumed to contain no '\n' (true for every line produced by
 `str.splitlines`, see `OPM.ParseText.splitLines`), which is the only character `.` does not match.
 
 `fx = true` models the code with fixes/C18-number-tail-as-unit.diff applied (the number in front of a
@@ -217,6 +220,48 @@ def floatMax (s : List Char) : Option Nat :=
   | some m => some (sg + m + expLen (s.drop (sg + m)))
   | none => none
 
+/-! ### typed results: `float(threshold)`, `float(tag_value)` as exact decimals -/
+
+/-- value of a decimal digit character (every run of `\d` characters counts 0‥9 repeatedly) -/
+def decVal (c : Char) : Nat :=
+  match pyDecimalRuns.find? (fun r => r.1 ≤ c.toNat && c.toNat ≤ r.2) with
+  | some r => (c.toNat - r.1) % 10
+  | none => 0
+
+/-- positional value of a digit string -/
+def digitsVal (ds : List Char) : Nat := ds.foldl (fun a c => 10 * a + decVal c) 0
+
+/-- the exact decimal `mant × 10^exp` -/
+structure Dec10 where
+  mant : Int
+  exp : Int
+deriving DecidableEq, Repr
+
+/-- `float(threshold)` for the text of the threshold group `\d+(\.\d+)?` -/
+def thrValue (t : List Char) : Dec10 :=
+  match t.dropWhile isDecimal with
+  | '.' :: f => ⟨digitsVal (t.takeWhile isDecimal ++ f), -(f.length : Int)⟩
+  | _ => ⟨digitsVal (t.takeWhile isDecimal), 0⟩
+
+/-- the `([eE][+-]?\d+)?` part as a number -/
+def expValue (r : List Char) : Int :=
+  match r with
+  | _ :: a =>
+    let v : Int := digitsVal ((a.drop (signLen a)).takeWhile isDecimal)
+    if a.head? == some '-' then -v else v
+  | [] => 0
+
+/-- `float(text)` for a text matched by `float_re` -/
+def numValue (t : List Char) : Dec10 :=
+  let u := t.drop (signLen t)
+  let i := u.takeWhile isDecimal
+  let r1 := u.dropWhile isDecimal
+  let fr : List Char × List Char := match r1 with
+    | '.' :: a => (a.takeWhile isDecimal, a.dropWhile isDecimal)
+    | _ => ([], r1)
+  let m : Int := digitsVal (i ++ fr.1)
+  ⟨if t.head? == some '-' then -m else m, expValue fr.2 - (fr.1.length : Int)⟩
+
 /-- `\s*(?P<unit>[a-zA-Z%\/23\*]+)$` on the rest after the number: the unit -/
 def unitTail (r : List Char) : Option (List Char) :=
   let u := r.dropWhile isSpace
@@ -226,6 +271,7 @@ def unitTail (r : List Char) : Option (List Char) :=
 structure Rhs where
   value : List Char
   unit : Option (List Char)
+  isNum : Bool := false     -- one of the two number patterns matched: `tag_value_numeric = float(value)`
 deriving DecidableEq, Repr
 
 /-- the three-way decision on the stripped, non-empty right-hand side:
@@ -237,14 +283,14 @@ def parseRhs (fx : Bool) (rhs : List Char) : Rhs :=
   let withUnit : Option Rhs :=
     (if fx then (floatMax rhs).toList else floatCands rhs).findSome? (fun k =>
       match unitTail (rhs.drop k) with
-      | some u => some ⟨rhs.take k, some u⟩
+      | some u => some ⟨rhs.take k, some u, true⟩
       | none => none)
   match withUnit with
   | some r => r
   | none =>
     match floatMax rhs with
-    | some k => if (rhs.drop k).all isSpace then ⟨rhs.take k, none⟩ else ⟨rhs, none⟩
-    | none => ⟨rhs, none⟩
+    | some k => if (rhs.drop k).all isSpace then ⟨rhs.take k, none, true⟩ else ⟨rhs, none, false⟩
+    | none => ⟨rhs, none, false⟩
 
 /-- the observable fields of `TagOperatorValue` -/
 structure Cond where
@@ -255,27 +301,28 @@ structure Cond where
   tagValue : Option (List Char)
   tagUnit : Option (List Char)
   error : Bool
+  tagNumeric : Option Dec10 := none      -- tag_value_numeric
 deriving DecidableEq, Repr
 
 /-- `_parse_tag_operator_value` for `arguments_part = part` and `node.operators = ops` -/
 def parseCond (fx : Bool) (ops : List (List Char)) (part : List Char) : Cond :=
   match ops.find? (fun op => isInfixB op part) with
-  | none => ⟨[], part, [], some (strip part), none, none, true⟩
+  | none => ⟨[], part, [], some (strip part), none, none, true, none⟩
   | some op =>
     match splitFirst op part with
-    | none => ⟨op, [], [], none, none, none, true⟩           -- unreachable: `op in part`
+    | none => ⟨op, [], [], none, none, none, true, none⟩           -- unreachable: `op in part`
     | some (l, r) =>
       if (splitFirst op r).isSome then
         -- `[lhs, rhs] = part.split(op)` raises (more than two pieces); swallowed by `except Exception`
-        ⟨op, [], [], none, none, none, true⟩
+        ⟨op, [], [], none, none, none, true, none⟩
       else
         let lhs := strip l
         let rhs := strip r
-        if lhs.isEmpty then ⟨op, lhs, rhs, none, none, none, true⟩
-        else if rhs.isEmpty then ⟨op, lhs, rhs, some lhs, none, none, true⟩
+        if lhs.isEmpty then ⟨op, lhs, rhs, none, none, none, true, none⟩
+        else if rhs.isEmpty then ⟨op, lhs, rhs, some lhs, none, none, true, none⟩
         else
           let v := parseRhs fx rhs
-          ⟨op, lhs, rhs, some lhs, some v.value, v.unit, false⟩
+          ⟨op, lhs, rhs, some lhs, some v.value, v.unit, false, if v.isNum then some (numValue v.value) else none⟩
 
 /-! ### `_parse_line` -/
 
@@ -304,6 +351,7 @@ structure Node where
   char : Nat                 -- position.character
   indentError : Bool
   thr : List Char            -- threshold_part
+  thrVal : Option Dec10      -- threshold
   namePart : List Char       -- instruction_part
   name : List Char           -- instruction_part.strip()  (the `instruction_name` property of instruction nodes)
   argPart : List Char        -- arguments_part
@@ -315,12 +363,15 @@ structure Node where
 deriving DecidableEq, Repr
 
 def blankNode (cls : String) (char : Nat) (hasComment : Bool) : Node :=
-  { cls := cls, opener := false, ws := true, char := char, indentError := false, thr := [], namePart := [],
+  { cls := cls, opener := false, ws := true, char := char, indentError := false, thr := [], thrVal := none, namePart := [],
     name := [], argPart := [], args := [], hasArg := false, hasComment := hasComment, comment := [],
     cond := none }
 
-/-- `_parse_line(line, _)`; `uod` = `uod_command_names`. -/
-def parseLine (fx : Bool) (uod : List String) (cs : List Char) : Node :=
+/-- `_parse_line(line, _)`; `uod` = `uod_command_names`.
+    `fe = true` models the code with fixes/C17-error-line-keeps-indentation.diff: a line that does not match
+    the instruction pattern keeps the column of its indentation (and is flagged when that is not a multiple
+    of four); `fe = false` is the code as it is: such a line is put at column 0. -/
+def parseLineE (fx fe : Bool) (uod : List String) (cs : List Char) : Node :=
   let st := strip cs
   match st with
   | [] => blankNode "BlankNode" cs.length false
@@ -328,17 +379,24 @@ def parseLine (fx : Bool) (uod : List String) (cs : List Char) : Node :=
     if c == '#' then blankNode "CommentNode" (cs.takeWhile isSpace).length true
     else
       match scanLine cs with
-      | none => { blankNode "ErrorInstructionNode" 0 false with ws := false }
+      | none =>
+        let ch := if fe then (cs.takeWhile isSpace).length else 0
+        { blankNode "ErrorInstructionNode" ch false with ws := false, indentError := ch % 4 != 0 }
       | some s =>
         let name := strip s.namePart
         let k := createNode uod (String.ofList name)
         let hasArg := (cs.takeWhile notHash).contains ':'
         { cls := k.cls, opener := k.opener, ws := false, char := s.indent,
-          indentError := s.indent % 4 != 0, thr := s.thr, namePart := s.namePart, name := name,
+          indentError := s.indent % 4 != 0, thr := s.thr,
+          thrVal := if s.thr.isEmpty then none else some (thrValue s.thr),
+          namePart := s.namePart, name := name,
           argPart := s.argPart, args := strip s.argPart, hasArg := hasArg,
           hasComment := s.hasComment, comment := s.comment,
           cond := if k.ops.isEmpty then none
                   else some (parseCond fx (k.ops.map String.toList) s.argPart) }
+
+/-- the code as it is with respect to unparsable lines -/
+abbrev parseLine (fx : Bool) (uod : List String) (cs : List Char) : Node := parseLineE fx false uod cs
 
 /-! ### vocabulary of C18: the line grammar and the condition grammar -/
 
@@ -365,6 +423,10 @@ def Threshold.text (t : Threshold) : List Char :=
   match t.frac with
   | none => t.int
   | some f => t.int ++ '.' :: f
+
+/-- the number a threshold denotes: digits `int.frac` read positionally -/
+def Threshold.value (t : Threshold) : Dec10 :=
+  ⟨digitsVal (t.int ++ t.frac.getD []), -((t.frac.getD []).length : Int)⟩
 
 def Threshold.WF (t : Threshold) : Prop :=
   t.int ≠ [] ∧ (∀ c ∈ t.int, isDecimal c = true) ∧
@@ -422,6 +484,17 @@ def Num.text (n : Num) : List Char :=
      (match n.exp with
       | some (e, s, d) => e :: (s ++ d)
       | none => [])))
+
+/-- the exponent part as a number -/
+def expInt (e : Option (Char × List Char × List Char)) : Int :=
+  match e with
+  | some (_, s, d) => if s = ['-'] then -(digitsVal d : Int) else (digitsVal d : Int)
+  | none => 0
+
+/-- the number the parts denote: `±(int.frac) × 10^exp`, digits read positionally -/
+def Num.value (n : Num) : Dec10 :=
+  let m : Int := digitsVal (n.int ++ n.frac.getD [])
+  ⟨if n.sign = ['-'] then -m else m, expInt n.exp - ((n.frac.getD []).length : Int)⟩
 
 def isSign (s : List Char) : Prop := s = [] ∨ s = ['+'] ∨ s = ['-']
 
